@@ -57,6 +57,8 @@ def strategy(tier):
             st.tuples(st.sampled_from(["set", "clear", "check", "isset", "get"]), idx),
             st.tuples(st.just("assign"), idx, st.sampled_from(VALUES)),
             st.tuples(st.sampled_from(["clearall", "str", "count"])),
+            # a RUN of consecutive positions set one by one (whole bytes / words become all-ones)
+            st.tuples(st.just("fill"), st.integers(0, max(0, n - 1)), st.sampled_from([8, 16, 63, 64, 65, 128, 130, 200])),
         )
         ops = draw(st.lists(op, min_size=1, max_size=8 if big else 60))
         # a SECOND live Bitarray of another size: every operation names its target by parity of a drawn number, the read-only
@@ -88,7 +90,17 @@ def exhaustive(tier):
                        "ops": [["set", 0], ["set", n - 1], ["assign", n // 2, 1], ["count"], ["clearall"], ["set", 1], ["assign", n - 1, 1],
                                ["clear", 1], ["str"], ["assign", n, 1]]}
 
-    return [("all_states_all_ops_n<=%d" % top, gen), ("block_sizes_2^10..2^%d_bytes" % kmax, blocks)]
+    def runs():
+        # completely filled arrays and long runs of ones around the 8 / 32 / 64-bit word boundaries, then single bits cleared
+        for n in (8, 9, 31, 32, 33, 63, 64, 65, 127, 128, 129, 191, 192, 200, 256, 257, 1000):
+            yield {"n": n, "n2": 0, "who": [],
+                   "ops": [["fill", 0, n], ["count"], ["str"], ["clear", n // 2], ["count"], ["assign", n // 2, 1], ["clear", 0], ["clear", n - 1],
+                           ["count"], ["fill", 0, n], ["clearall"], ["fill", max(0, n - 70), 70], ["count"]]}
+            for off in (1, 7, 8, 32):
+                if n > 64 + off:
+                    yield {"n": n, "n2": 0, "who": [], "ops": [["fill", off, 64], ["count"], ["fill", 0, n], ["count"], ["str"]]}
+
+    return [("all_states_all_ops_n<=%d" % top, gen), ("block_sizes_2^10..2^%d_bytes" % kmax, blocks), ("filled_arrays_and_runs_of_ones", runs)]
 
 
 def _build(Bitarray, n, bits, ctx):
@@ -137,6 +149,13 @@ def _apply(ctx, b, model, op):
     """apply one op to the real Bitarray and to the model; returns (wrote, rejected)"""
     n = len(model)
     kind = op[0]
+    if kind == "fill":
+        lo = op[1]
+        hi = min(n, lo + op[2])
+        for i in range(lo, hi):
+            ctx.call("C20.valid_op", b.set_bit, i)
+            model[i] = 1
+        return hi > lo, False
     if kind in ("clearall", "str", "count"):
         if kind == "clearall":
             ctx.call("C20.valid_op", b.clear)
